@@ -535,7 +535,7 @@ func sameOnOld(he *HeapEnv, loc, x, y, a0 string) string {
 	if x == y {
 		return "true"
 	}
-	return fmt.Sprintf("(forall ((?r Int)) (=> (<= ?r %s) (= (select %s ?r) (select %s ?r))))", a0, x, y)
+	return fmt.Sprintf("(forall ((bv!!r Int)) (=> (<= bv!!r %s) (= (select %s bv!!r) (select %s bv!!r))))", a0, x, y)
 }
 
 // ghost location: newline bytes written to a strings.Builder
@@ -550,7 +550,7 @@ func (vc *VC) cntNL(row, lo, hi string) string {
 	l := vc.sc.define("rows.lo", "Int", lo)
 	h := vc.sc.define("rows.hi", "Int", hi)
 	t := app("cnt_nl", r, l, h)
-	if strings.Contains(t, "?") {
+	if hasBound(t) {
 		return t
 	}
 	key := "inst:" + t
